@@ -234,6 +234,27 @@ func scenarios() []*sched.Scenario {
 			func(w *world) { w.batch(1, w.root, bop{key: k1, val: "a"}, bop{key: k2, val: "c"}) },
 			func(w *world) { w.batch(2, w.v00, bop{del: true, key: "\x01"}, bop{key: "\x02", val: "d"}) },
 		}},
+		// a consumer that reads the store again from inside its callback (e.g. copying between realms) while a writer is
+		// waiting: the iteration must not hold the map lock across callbacks
+		{name: "iterate-consumer-reads-vs-writer", init: map[string]string{k1: "a", k2: "a"}, thr: []func(w *world){
+			func(w *world) {
+				must(w.v00.s.Iterate(kvstore.EmptyPrefix, func(k, v []byte) bool {
+					vrt.Yield()
+					_, err := w.root.s.Has([]byte(k2))
+					must(err)
+					return true
+				}))
+				must(w.root.s.IterateKeys(kvstore.EmptyPrefix, func(k []byte) bool {
+					vrt.Yield()
+					_, err := w.v00.s.Get([]byte("\x01"))
+					if err != nil && err != kvstore.ErrKeyNotFound {
+						panic(err)
+					}
+					return true
+				}))
+			},
+			func(w *world) { w.set(2, w.root, k2, "b"); w.del(2, w.v00, "\x01") },
+		}},
 		{name: "batch-vs-deleteprefix-set", thor: true, init: map[string]string{k2: "a"}, thr: []func(w *world){
 			func(w *world) { w.batch(1, w.v00, bop{key: "\x01", val: "a"}, bop{key: "\x02", val: "b"}) },
 			func(w *world) { w.delPrefix(2, w.root, "\x00") },
